@@ -98,23 +98,23 @@ Definition value_wf (v : value) : Prop :=
   | _ => True
   end.
 
-Theorem cast_int_in_range : forall o v w,
-  value_wf v -> cast_int o v = OVal w -> exists z, w = VInt z /\ in_i64 z = true.
+Theorem cast_int_in_range : forall v w,
+  value_wf v -> cast_int v = OVal w -> exists z, w = VInt z /\ in_i64 z = true.
 Proof. exact C09.cast_int_in_range. Qed.
 Check cast_int_in_range.
 Print Assumptions cast_int_in_range.
 
-Theorem cast_int_spec : forall o,
-  (forall b, cast_int o (VBool b) = OVal (VInt (if b then 1 else 0))) /\
-  (forall z, cast_int o (VInt z) = OVal (VInt z)) /\
-  (forall z, cast_int o (VUInt z) = if (z <=? i64_max)%Z then OVal (VInt z) else OFalse) /\
-  (forall s, cast_int o (VStr s) = match parse_i64 s with Some z => OVal (VInt z) | None => OFalse end) /\
-  (forall f, cast_int o (VFloat f) = match f64_round_Z f with
+Theorem cast_int_spec :
+  (forall b, cast_int (VBool b) = OVal (VInt (if b then 1 else 0))) /\
+  (forall z, cast_int (VInt z) = OVal (VInt z)) /\
+  (forall z, cast_int (VUInt z) = if (z <=? i64_max)%Z then OVal (VInt z) else OFalse) /\
+  (forall s, cast_int (VStr s) = match parse_i64 s with Some z => OVal (VInt z) | None => OFalse end) /\
+  (forall f, cast_int (VFloat f) = match f64_round_Z f with
                                       | Some z => if in_i64 z then OVal (VInt z) else OFalse
                                       | None => OFalse
                                       end) /\
-  cast_int o VNull = OFalse /\ (forall l, cast_int o (VArr l) = OFalse) /\
-  (forall kv, cast_int o (VObj kv) = OFalse).
+  cast_int VNull = OFalse /\ (forall l, cast_int (VArr l) = OFalse) /\
+  (forall kv, cast_int (VObj kv) = OFalse).
 Proof. exact C09.cast_int_spec. Qed.
 Check cast_int_spec.
 Print Assumptions cast_int_spec.
@@ -156,9 +156,9 @@ Print Assumptions compare_never_panics.
 
 Theorem cast_unconvertible_false : forall o d f m op c v,
   (m = MInt \/ m = MFlt) -> is_cmp op = true ->
-  (c = EInt 0 \/ c = EFloat 0) ->
+  (c = EInt 0%Z \/ c = EFloat 0%Z) ->
   d f = Some v ->
-  (match m with MInt => cast_int o v | _ => cast_flt o v end) = OFalse ->
+  (match m with MInt => cast_int v | _ => cast_flt o v end) = OFalse ->
   solve_compare o (pure_doc d) (ECast f m) op c = Ok F.
 Proof. exact C09.cast_unconvertible_false. Qed.
 Check cast_unconvertible_false.
@@ -166,12 +166,9 @@ Print Assumptions cast_unconvertible_false.
 
 (* non-vacuity: the boundary that fix D6 is about *)
 Example cmp_boundary_example :
-  compare_values (VUInt 18446744073709551615) BGreaterThan (VInt 5) = true /\
-  compare_values (VInt (-1)) BLessThan (VUInt 9223372036854775808) = true /\
-  compare_values (VUInt 9223372036854775807) BEqual (VInt 9223372036854775807) = true /\
-  cast_int {| re_valid := fun _ _ => false; re_match := fun _ _ _ => false;
-              f64_parse := fun _ => None; f64_show := fun _ => [];
-              uni_alnum := fun _ => false; uni_num := fun _ => false |}
-           (VFloat 5055640609639927018) = OFalse.
+  compare_values (VUInt 18446744073709551615%Z) BGreaterThan (VInt 5%Z) = true /\
+  compare_values (VInt (-1)%Z) BLessThan (VUInt 9223372036854775808%Z) = true /\
+  compare_values (VUInt 9223372036854775807%Z) BEqual (VInt 9223372036854775807%Z) = true /\
+  cast_int (VFloat 5055640609639927018%Z) = OFalse.
 Proof. exact C09.cmp_boundary_example. Qed.
 Check cmp_boundary_example.
